@@ -27,8 +27,28 @@ _cache = {}
 ORACLE_EVERY = True  # the end-to-end comparison with the uncut circuit is run on every case
 
 
+def _idle_case(rng, letter):
+    """an observable with the given letter on an idle qubit (labelled None explicitly or by automatic labelling), identity on idle qubits elsewhere"""
+    while True:
+        p = workflow.gen_problem(rng, max_q=4, max_cuts=1, depth=4)
+        if not p["idle"] or not (p["labels"] is None or all(p["labels"][q] is None for q in p["idle"])):
+            continue
+        q = p["idle"][0]
+        p["obs"][0]["l"] = p["obs"][0]["l"][:q] + letter + p["obs"][0]["l"][q + 1:]
+        return p
+
+
 def cases(rng, tier):
     N = 60 if tier == "quick" else 700
+    # families that are present whatever the seed
+    for letter in "XYZ":
+        p = _idle_case(rng, letter)
+        p.update(form="dict", N=None, seed=0)
+        yield ("roundtrip", p)
+    for fam in ("crx", "cry", "crz", "rzz", "rxx"):
+        p = workflow.gen_chain_problem(rng, force=fam)
+        p.update(form="dict", N=None, seed=0)
+        yield ("roundtrip", p)
     for _ in range(N):
         if rng.random() < 0.25:
             p = workflow.gen_chain_problem(rng)
